@@ -163,7 +163,9 @@ func c05(args []string) int {
 	deadline := time.Now().Add(ev.Budget(100*time.Second, 40*time.Minute))
 	scs := c05Scenarios()
 	if !thorough {
-		scs = scs[:4]
+		// quick tier: the first four scenarios plus the run-time re-baselining one (a listing that breaks while the
+		// baseline is re-established is a different code path from every listing of the steady state)
+		scs = append(scs[:4:4], scs[6])
 	}
 	type job struct {
 		sc   e3Scenario
